@@ -40,7 +40,17 @@ GROUPS = [
 CMNS = ["40,3,-1", "41.00,-5.29,-0.12,5.09,2.48,-4.07,-1.37,-1.78,-5.08,-2.05,-6.45,-1.42,1.17",
         "30,0,0,0,0,0,0,0,0,0,0,0,0"]
 WARMUP = ["utt 3000 16000 40,3,-1", "p i 7000 0", "p f 9000 1", "end", "res"]
-ST_KEYS = ["st", "nmfc", "mfco", "nfeat", "fo", "of", "alloc", "grow", "bp", "cp"]
+# warm-up of the "streaming after a batch utterance" groups: a full_utt decode of the whole recording leaves the
+# cepstrum ring (n_mfc_alloc) as large as that utterance for good
+WARMUP_FULL = ["utt 0 99999999 40,3,-1", "p i 99999999 0 full", "end", "res"]
+MODE = {"warm_full": False, "ref_full": False}
+
+
+def warmup_run():
+    wl = WARMUP_FULL if MODE["warm_full"] else WARMUP
+    w = wl[0].split()
+    return mk_run(int(w[1]), int(w[2]), w[3], wl[1:-2])
+ST_KEYS = ["st", "nmfc", "mfco", "nfeat", "fo", "of", "alloc", "grow", "bp", "cp", "malloc"]
 
 
 def repo(p):
@@ -167,6 +177,8 @@ REF_NOSEARCH = False   # set while a group is judged whose reference is the buff
 def ref_ops(L, cap):
     """the reference pattern: as few int16 calls as possible, searched as data arrives (or, when REF_NOSEARCH,
     buffered with no_search = 1 and searched by decoder_end_utt)"""
+    if MODE["ref_full"]:
+        return [f"p i {L} 0 full"]
     out, left = [], L
     ns = 1 if REF_NOSEARCH else 0
     while left > 0:
@@ -212,7 +224,7 @@ def gen_clips(rng, N, P, tier):
         clips.append((rng.below(N // 4), fs + 128 * sh + rng.below(sh)))
         clips.append((rng.below(N // 2), rng.range(16000, 30000)))
     # frame counts next to the sizes feat_buf can have (reused decoder: the size is whatever the history left)
-    for (M, alloc, l) in end_edge_lengths(rng, N, P, tier)[:(2 if tier == "quick" else 8)]:
+    for (M, alloc, l) in end_edge_lengths(rng, N, P, tier)[:(1 if tier == "quick" else 8)]:
         clips.append((0 if l > N - 10 else rng.below(N - l), l))
     clips.append((0, min(N, maxlen)))
     return clips
@@ -291,7 +303,16 @@ def model_lines(P, run, fix=1):
     for op, o in zip(run["ops"], out[1:1 + len(run["ops"])]):
         d = kv(o.split(" | ")[0])
         w = op.split()
-        if w[0] == "p":
+        if w[0] == "p" and len(w) == 5 and w[4] == "full":
+            # per loop iteration: e<estimate>, <lim>:<nvec>:<left> (fe_process), <lim>:<n>:0 (fe_end)
+            ent = [] if d.get("fe", "-") == "-" else d["fe"].split(",")
+            resp, i = [], 0
+            while i + 2 < len(ent) + 0 and ent[i].startswith("e"):
+                pr, en = ent[i + 1].split(":"), ent[i + 2].split(":")
+                resp.append(f"{ent[i][1:]}:{pr[1]}:{1 if int(pr[2]) > 0 else 0}:{en[1]}")
+                i += 3
+            lines.append(f"pfull {w[3]} {','.join(resp) if resp else '-'}")
+        elif w[0] == "p":
             fe = d.get("fe", "-")
             resp = "-" if fe == "-" else ",".join(f"{x.split(':')[1]}:{1 if int(x.split(':')[2]) > 0 else 0}" for x in fe.split(","))
             lines.append(f"p {w[3]} {resp}")
@@ -348,6 +369,8 @@ def compare_run(P, run, mout, winmap, problems, stats):
         fe = d.get("fe", "-")
         if fe != "-":
             for x in fe.split(","):
+                if x.startswith("e"):
+                    continue
                 lim, nvec, _ = x.split(":")
                 if int(nvec) > int(lim):
                     problems.append(f"line {idx}: front end yielded {nvec} frames with limit {lim}")
@@ -355,7 +378,8 @@ def compare_run(P, run, mout, winmap, problems, stats):
     e = kv(out[-2].split(" | ")[0])
     fe = e.get("fe", "-")
     tail = 0 if fe == "-" else int(fe.split(",")[-1].split(":")[1])
-    if (tail == 1) != (run["len"] > 0 and run["fed"] > 0):
+    anyfull = any(o.startswith("p ") and o.endswith(" full") for o in run["ops"])
+    if (tail == 1) != (run["len"] > 0 and run["fed"] > 0 and not anyfull):
         problems.append(f"fe_end yielded {tail} frame(s) after {run['fed']} samples")
 
 
@@ -367,7 +391,7 @@ def branch_stats(P, run, stats):
         st = kv(o.split(" | ")[-1])
         d = kv(o.split(" | ")[0])
         fe = d.get("fe", "-")
-        fes = [] if fe == "-" else [tuple(int(y) for y in x.split(":")) for x in fe.split(",")]
+        fes = [] if fe == "-" else [tuple(int(y) for y in x.split(":")) for x in fe.split(",") if not x.startswith("e")]
         if op.startswith("p"):
             if prev["st"] == "1" and st["st"] == "1" and fes:
                 b["call yielding no frame while STARTED"] += 1
@@ -438,8 +462,7 @@ REF_LAST = False      # set while a group is judged whose reference pattern is d
 def isolated(binp, g, off, ln, cmn, ops, cap):
     """fresh process: warm-up utterance, reference pattern, variant (or variant, reference when REF_LAST).
     Returns (kind, info, runs, P) with kind None | "diff" (record differs) | "crash" (the library died in the variant)."""
-    w = WARMUP[0].split()
-    runs = [mk_run(int(w[1]), int(w[2]), w[3], WARMUP[1:-2]), mk_run(off, ln, cmn, ref_ops(ln, cap)), mk_run(off, ln, cmn, ops)]
+    runs = [warmup_run(), mk_run(off, ln, cmn, ref_ops(ln, cap)), mk_run(off, ln, cmn, ops)]
     if REF_LAST:
         runs = [runs[0], runs[2], runs[1]]
     rc, err, P, done = run_harness(binp, g, runs, timeout=600)
@@ -472,6 +495,8 @@ def shrink(binp, g, off, ln, cmn, ops, cap, kind, budget=40):
         tests += 1
         return isolated(binp, g, off, ln, cmn, cand, cap)[0] == kind
     cur = list(ops)
+    if any(o.endswith(" full") for o in cur):
+        return [o for o in cur if not o.startswith("q ")] if (kind.startswith("diff") and bad([o for o in cur if not o.startswith("q ")])) else cur
     if kind == "crash":
         k, info, runs, _ = isolated(binp, g, off, ln, cmn, cur, cap)
         if k == "crash":
@@ -583,12 +608,13 @@ def report_violation(c, binp, g, off, ln, cmn, ops, cap, why):
               "clip_offset_samples": off, "clip_length_samples": ln, "cmn": cmn,
               "reference_ops": ref_ops(ln, cap), "variant_ops": small, "why": why,
               "reference_decoded_after_the_variant": REF_LAST, "reference_buffered_no_search": REF_NOSEARCH,
+              "warm_up_is_a_full_utt_decode": MODE["warm_full"], "reference_full_utt": MODE["ref_full"],
               "implementation_violates_property": visible, "finding_class": key,
               "how_to_rerun": "python3 tools/check.py C07 --replay <this file>   (a warm-up utterance, the reference "
                               "pattern and the variant are decoded by harness/h_c07 in one fresh process; ops: "
                               "'p <i|f> <samples> <no_search>', 'q hyp|seg|align')"}
     replay.update(info)
-    sig = (g["name"], off, ln, tuple(small), kind, REF_LAST, REF_NOSEARCH)
+    sig = (g["name"], off, ln, tuple(small), kind, REF_LAST, REF_NOSEARCH, MODE["warm_full"], MODE["ref_full"])
     if sig not in STATE.setdefault("reported", set()):
         STATE["reported"].add(sig)
         c.violation(replay, visible, finding_key=key)
@@ -639,15 +665,16 @@ def probe(binp):
     return bool(m and m.group(1) == "1")
 
 
-def check_group(c, binp, g, cases, cap, stats, label, depth=0, ref_last=False, ref_nosearch=False):
+def check_group(c, binp, g, cases, cap, stats, label, depth=0, ref_last=False, ref_nosearch=False, warm_full=False,
+                ref_full=False):
     """cases: list of (off, len, cmn, [(kind, ops), ...], cap).  Returns (ok, P).
     ref_last: decode the variants before the reference pattern (on a fresh decoder the variants then meet the
     initial buffer sizes, which the single-call reference would have grown)."""
     global REF_LAST, REF_NOSEARCH
     REF_LAST = ref_last
     REF_NOSEARCH = ref_nosearch
-    w = WARMUP[0].split()
-    runs = [mk_run(int(w[1]), int(w[2]), w[3], WARMUP[1:-2])]
+    MODE["warm_full"], MODE["ref_full"] = warm_full, ref_full
+    runs = [warmup_run()]
     index = []               # (case idx, variant idx or -1 for the reference) per run after the warm-up
     for ci, (off, ln, cmn, variants, cap_c) in enumerate(cases):
         if not ref_last:
@@ -693,7 +720,7 @@ def check_group(c, binp, g, cases, cap, stats, label, depth=0, ref_last=False, r
                         continue
                 rest.append((o2, l2, m2, v2, cp2))
             if rest:
-                ok2, P = check_group(c, binp, g, rest, cap, stats, label, depth + 1, ref_last, ref_nosearch)
+                ok2, P = check_group(c, binp, g, rest, cap, stats, label, depth + 1, ref_last, ref_nosearch, warm_full, ref_full)
                 return (ok2 and known), P
         return known, P
     # ---- oracle: every record identical to the reference record of its clip
@@ -815,10 +842,13 @@ def check(c):
             continue
         cases = [(obj["clip_offset_samples"], obj["clip_length_samples"], obj["cmn"], [("corpus", obj["variant_ops"])], cap_c)]
         ncorp += 1
-        ok, P = check_group(c, binp, g, cases, cap, stats, f"corpus {name}")
+        ok, P = check_group(c, binp, g, cases, cap, stats, f"corpus {name}",
+                            ref_last=bool(obj.get("reference_decoded_after_the_variant")),
+                            ref_nosearch=bool(obj.get("reference_buffered_no_search")),
+                            warm_full=bool(obj.get("warm_up_is_a_full_utt_decode")), ref_full=bool(obj.get("reference_full_utt")))
         allok = allok and ok
     # ---- generated cases
-    npat = 10 if c.tier == "quick" else 40
+    npat = 8 if c.tier == "quick" else 40
     rounds = 1 if c.tier == "quick" else 4
     groups = GROUPS[:3] if c.tier == "quick" else GROUPS
     P0 = {"fsize": 410, "fshift": 160, "nmfc": 128}
@@ -943,6 +973,7 @@ def replay(c, path):
     stats = new_stats()
     cases = [(obj["clip_offset_samples"], obj["clip_length_samples"], obj["cmn"], [("replay", obj["variant_ops"])], cap)]
     ok, P = check_group(c, binp, g, cases, cap, stats, "replay", ref_last=bool(obj.get("reference_decoded_after_the_variant")),
-                        ref_nosearch=bool(obj.get("reference_buffered_no_search")))
+                        ref_nosearch=bool(obj.get("reference_buffered_no_search")),
+                        warm_full=bool(obj.get("warm_up_is_a_full_utt_decode")), ref_full=bool(obj.get("reference_full_utt")))
     c.oblige("replayed pattern gives the reference record and agrees with the model", ok)
     c.cov.update({"evaluations": 1, "distinct_nontrivial": 1})
